@@ -1,5 +1,6 @@
 import QibModel.DriverMain
 import QibModel.BackendOps
+import QibModel.BackendSchedOps
 import QibModel.ValidateOps
 open Lean Qib
 
@@ -7,6 +8,7 @@ def backendDispatch : Dispatch := fun op j =>
   match op with
   | "http.history" => some (Backend.opHttpHistory j)
   | "exp.history" => some (Backend.opExpHistory j)
+  | "exp.schedule" => some (Backend.opExpSchedule j)
   | "status.map" => some (Backend.opStatusMap j)
   | "wmi.validate" => some (Wmi.opValidate j)
   | "wmi.qobj" => some (Wmi.opQobj j)
